@@ -7,6 +7,7 @@ import (
 	"go/ast"
 	"go/types"
 	"sort"
+	"strings"
 
 	"verif/checker/internal/cfgx"
 	"verif/checker/internal/load"
@@ -24,17 +25,51 @@ type Ctx struct {
 	ircF   *ircFacts
 }
 
-// alsoRuns lists, per property, rule sets of other properties whose obligations are necessary conditions of it too.
-var alsoRuns = map[string][]string{
-	"C05": {"C02", "C09"},        // acknowledged entries survive snapshots / the store honours its contract
-	"C07": {"C09", "C10", "C02"}, // the marked entry lands in a store that honours its contract; the duplicate-detection marker still advances for a skipped entry (C10.U3); every entry, marked or not, is re-filed in the irclog before it is applied or skipped, so that compaction and restore see the mark (C02.N3/N1)
-	"C16": {"C03"},               // "every replica uses the same configuration" includes replicas that load it from a snapshot: the Config record must round-trip (C03.K*)
-	"C02": {"C03"},               // folding relies on complete state serialization
-	"C11": {"C17"},               // ended sessions must leave the session table, otherwise their secret keeps working
-	"C09": {"C18"},               // entries must be encoded/decoded field by field without loss (C09's L5 is C18.F2)
-	"C06": {"C14"},               // the state invariants I1-I3 that justify look-ups in C06.G3 are preserved iff C14's pairing rules hold
-	"C12": {"C14"},               // recipient sets are computed from the membership relations whose pairing C14 checks
-	"C10": {"C07"},               // the tombstone written for a message of death must keep the client message id
+// borrow names a rule set of another property whose obligations are necessary conditions of the borrowing property too,
+// optionally narrowed to some of its rules (prefixes after "Cnn."), to obligations whose function starts with funcPrefix, or
+// whose key contains keyHas. Narrowing matters: a borrowed obligation that is *not* necessary for the borrower would make
+// the borrower's check fire on a tree where its own property holds.
+type borrow struct {
+	prop       string
+	rules      []string
+	funcPrefix string
+	keyHas     string
+}
+
+// alsoRuns lists, per property, what it borrows (explicitly; not transitive).
+var alsoRuns = map[string][]borrow{
+	// folding and restore rely on complete state serialization and on canonical map keys in the loaded state
+	"C02": {{prop: "C03"}, {prop: "C14", rules: []string{"M6"}}},
+	"C03": {{prop: "C14", rules: []string{"M6"}}},
+	// acknowledged entries survive snapshots (C02, C03), the store honours its contract (C09 + its entry codec), and
+	// "delivers exactly once" includes the resume protocol (C04)
+	"C05": {{prop: "C02"}, {prop: "C03"}, {prop: "C09"}, {prop: "C18", rules: []string{"F1", "F2", "F3"}}, {prop: "C04"}, {prop: "C14", rules: []string{"M6"}}},
+	// the state invariants that justify look-ups in C06.G3 are preserved iff C14's pairing rules hold
+	"C06": {{prop: "C14"}},
+	// the marked entry lands in a store that honours its contract (C09, F2/F3); the duplicate-detection marker advances for a
+	// skipped entry (C10.U3); every entry, marked or not, is re-filed before it is applied or skipped and is folded by
+	// compaction, and restore rebuilds from it (C02.N1/N3/N4/N5); the marker and everything else survives a snapshot (C03)
+	"C07": {{prop: "C09"}, {prop: "C18", rules: []string{"F2", "F3"}}, {prop: "C10", rules: []string{"U3"}}, {prop: "C02", rules: []string{"N1", "N3", "N4", "N5"}}, {prop: "C03"}},
+	// "under every interleaving": the lock discipline of the output stream (C20 restricted to package outputstream)
+	"C08": {{prop: "C20", funcPrefix: "outputstream."}},
+	// entries are encoded/decoded field by field without loss
+	"C09": {{prop: "C18", rules: []string{"F1", "F2", "F3"}}},
+	// the tombstone written for a message of death keeps the client message id and the same slot; compaction folds it; the
+	// marker is part of the snapshot
+	"C10": {{prop: "C07", rules: []string{"D2", "D3", "D5"}}, {prop: "C02", rules: []string{"N1"}}, {prop: "C03", keyHas: "lastClientMessageId"}},
+	// ended sessions must leave the session table, otherwise their secret keeps working
+	"C11": {{prop: "C17", rules: []string{"Y1", "Y3", "Y4"}}},
+	// recipient sets are computed from the membership relations whose pairing C14 checks
+	// … and from the nickname index, which a restore must rebuild for every session with a nickname (C03.K4)
+	"C12": {{prop: "C14"}, {prop: "C03", rules: []string{"K4"}}},
+	// operator status lives in per-member arrays: a restore that shares one array between members hands out operator status
+	"C13": {{prop: "C14", rules: []string{"M1"}, keyHas: "fresh status array"}},
+	// ended sessions leave every relation and the session table (C17.Y4)
+	"C14": {{prop: "C17", rules: []string{"Y4"}}},
+	// replicas that load the configuration from a snapshot must get the same one
+	// … and the ban table must be a usable map after every way of installing a configuration (C06.G5), else the next
+	// GLINE kills the replica that restored and the others keep the ban
+	"C16": {{prop: "C03", keyHas: "onfig"}, {prop: "C06", rules: []string{"G5"}, keyHas: "Banned"}},
 }
 
 // Rule set registry: property id -> function.
@@ -71,13 +106,52 @@ func Run(id string, p *load.Program, tier string) *report.Result {
 	c := &Ctx{P: p, Tier: tier, R: report.NewResult(id), graphs: map[ast.Node]*cfgx.Graph{}}
 	f(c)
 	// rule sets of other properties that state necessary conditions of this one (obligations appear as <id>/<rule>)
-	for _, dep := range alsoRuns[id] {
-		if g := registry[dep]; g != nil {
-			expl, rules := c.R.Explanation, c.R.Rules
-			g(c)
-			c.R.Explanation = expl + " Additionally runs the rule set of " + dep + " (its obligations are necessary conditions of this property as well; they appear as " + id + "/" + dep + ".*)."
-			c.R.Rules = append(rules, dep+".* (borrowed)")
+	for _, bw := range alsoRuns[id] {
+		g := registry[bw.prop]
+		if g == nil {
+			continue
 		}
+		bw := bw
+		expl, rules := c.R.Explanation, c.R.Rules
+		scoped := len(bw.rules) > 0 || bw.funcPrefix != "" || bw.keyHas != ""
+		if scoped {
+			c.R.Filter = func(o *report.Obligation) bool {
+				if len(bw.rules) > 0 {
+					okRule := false
+					for _, rl := range bw.rules {
+						if strings.HasPrefix(o.Rule, bw.prop+"."+rl) {
+							okRule = true
+						}
+					}
+					if !okRule {
+						return false
+					}
+				}
+				if bw.funcPrefix != "" && !strings.HasPrefix(o.Func, bw.funcPrefix) {
+					return false
+				}
+				if bw.keyHas != "" && !strings.Contains(o.Func+" "+o.Construct, bw.keyHas) {
+					return false
+				}
+				return true
+			}
+		}
+		nBroken := len(c.R.Broken)
+		g(c)
+		c.R.Filter = nil
+		_ = nBroken
+		what := bw.prop
+		if len(bw.rules) > 0 {
+			what += "." + strings.Join(bw.rules, "/")
+		}
+		if bw.funcPrefix != "" {
+			what += " (functions " + bw.funcPrefix + "*)"
+		}
+		if bw.keyHas != "" {
+			what += " (obligations about *" + bw.keyHas + "*)"
+		}
+		c.R.Explanation = expl + " Additionally runs " + what + " (necessary conditions of this property as well; reported as " + id + "/" + bw.prop + ".*)."
+		c.R.Rules = append(rules, what+" (borrowed)")
 	}
 	return c.R
 }
